@@ -405,3 +405,109 @@ func resolvePhiCond(cond ssa.Value, b, pred *ssa.BasicBlock) (ssa.Value, int) {
 	}
 	return cond, -1
 }
+
+// SimplifyGrounds merges grounds that differ only in the polarity of one conjunct (x ∧ r, ¬x ∧ r  ⟹  r), repeatedly, and
+// returns the resulting prime terms: conditions that do not influence the outcome disappear, however the code nests them.
+func SimplifyGrounds(grounds []string) []string {
+	type term map[string]bool
+	parse := func(s string) term {
+		t := term{}
+		for _, c := range strings.Split(s, " ∧ ") {
+			if c != "" {
+				t[c] = true
+			}
+		}
+		return t
+	}
+	render := func(t term) string {
+		ks := make([]string, 0, len(t))
+		for k := range t {
+			ks = append(ks, k)
+		}
+		sort.Strings(ks)
+		return strings.Join(ks, " ∧ ")
+	}
+	flip := func(c string) string {
+		if strings.HasPrefix(c, "+") {
+			return "-" + c[1:]
+		}
+		if strings.HasPrefix(c, "-") {
+			return "+" + c[1:]
+		}
+		return ""
+	}
+	cur := map[string]term{}
+	for _, g := range grounds {
+		t := parse(g)
+		cur[render(t)] = t
+	}
+	for round := 0; round < 16; round++ {
+		merged := map[string]term{}
+		used := map[string]bool{}
+		keys := make([]string, 0, len(cur))
+		for k := range cur {
+			keys = append(keys, k)
+		}
+		sort.Strings(keys)
+		for _, ka := range keys {
+			a := cur[ka]
+			for lit := range a {
+				f := flip(lit)
+				if f == "" {
+					continue
+				}
+				b := term{}
+				for k := range a {
+					if k != lit {
+						b[k] = true
+					}
+				}
+				rest := render(b)
+				b[f] = true
+				if _, ok := cur[render(b)]; ok {
+					used[ka] = true
+					used[render(b)] = true
+					delete(b, f)
+					merged[rest] = b
+				}
+			}
+		}
+		if len(merged) == 0 {
+			break
+		}
+		next := map[string]term{}
+		for k, t := range cur {
+			if !used[k] {
+				next[k] = t
+			}
+		}
+		for k, t := range merged {
+			next[k] = t
+		}
+		// absorption: drop terms that are supersets of another term
+		for ka, a := range next {
+			for kb, b := range next {
+				if ka == kb || len(b) >= len(a) {
+					continue
+				}
+				sub := true
+				for k := range b {
+					if !a[k] {
+						sub = false
+					}
+				}
+				if sub {
+					delete(next, ka)
+					break
+				}
+			}
+		}
+		cur = next
+	}
+	out := make([]string, 0, len(cur))
+	for k := range cur {
+		out = append(out, k)
+	}
+	sort.Strings(out)
+	return out
+}
